@@ -2,28 +2,45 @@
 (* C03, histories: a Sequence object under sequences of public calls (index, assignment,
    concatenation, reversal, complement, copy ...).  Every transition of the state graph is
    replayed against the real object (S2); the invariant says that the object always stays a
-   valid sequence over its alphabet and that refused calls change nothing.                *)
+   valid sequence over its alphabet and that refused calls change nothing.
+
+   Two objects are alive: the sequence at hand (kind, alph, codes) and, once a call has returned
+   a NEW sequence (copy, reverse, complement, +), the sequence it was made from ("held").  The
+   new sequence is independent of it: whatever is done to the one at hand, the held sequence
+   keeps its string (and "swap" exchanges the two, so writes go either way).  Indices are
+   handed over in several forms (SeqCodecOps.Dom_Form); the form is part of the call.     *)
 EXTENDS SeqCodecOps
 
 CONSTANTS Depth, Rich
-VARIABLES kind, alph, codes, oc, out, steps
-vars == <<kind, alph, codes, oc, out, steps>>
+VARIABLES kind, alph, codes, oc, out, steps,
+          held        \* <<>> or <<[alph, codes]>>: the sequence the one at hand was derived from
+vars == <<kind, alph, codes, oc, out, steps, held>>
 Cur == Seq0(kind, alph, codes)
 
 GenAlph == <<2, 0, 1>>
-InitObjs == {Seq0("nuc", NucUnamb, <<0, 1, 2>>), Seq0("general", GenAlph, <<1, 1, 0>>)}
+\* length 3 for the index universe below, and the boundary lengths 1 and 0 (a one-element array is
+\* contiguous in every layout, an empty one has nothing to copy)
+InitObjs == {Seq0("nuc", NucUnamb, <<0, 1, 2>>), Seq0("general", GenAlph, <<1, 1, 0>>),
+             Seq0("nuc", NucUnamb, <<1>>), Seq0("general", GenAlph, <<>>)}
             \cup (IF Rich THEN {Seq0("nuc", NucAmb, <<14, 0, 4>>), Seq0("prot", ProtAlph, <<10, 23>>)} ELSE {})
 
 SymsOf(k) == IF k = "general" THEN {2, 1, 7} ELSE IF k = "prot" THEN {77, 42, 64} ELSE {65, 84, 78, 64}
 AlphOf(k) == IF k = "general" THEN GenAlph ELSE IF k = "prot" THEN ProtAlph ELSE NucUnamb
 Kinds == {"nuc", "general"} \cup (IF Rich THEN {"prot"} ELSE {})
 
+MFI == IF Rich THEN {"py", "i16", "i64", "u8", "u32"} ELSE {"py", "i64", "u8"}
+MFA == IF Rich THEN {"list", "i32", "i64", "u8"} ELSE {"list", "i64"}
+MFS == IF Rich THEN SliceForms ELSE {"py"}
+MForms(X) == Formed(X, MFI, MFA, MaskForms, MFS)
+
 CallsFor(k) ==
-       {<<k, "str", <<>>>>, <<k, "len", <<>>>>, <<k, "reverse", <<>>>>, <<k, "copy", <<>>>>, <<k, "isvalid", <<>>>>}
-  \cup {<<k, "get", <<x>>>> : x \in IntIdx(-4..3) \cup SliceIdx({1}, {-1, 2}, {-1, 2})
-                                   \cup {<<"arr", <<1, 0, 1>>>>, <<"arr", <<-1>>>>, <<"mask", <<TRUE, FALSE, TRUE>>>>}}
-  \cup {<<k, "setsym", <<i, s>>>> : i \in {-4, -1, 0, 2, 3}, s \in SymsOf(k)}
-  \cup {<<k, "setmany", <<x, v>>>> : x \in SliceIdx({1}, {}, {-1}) \cup SliceIdx({}, {2}, {}),
+       {<<k, "str", <<>>>>, <<k, "len", <<>>>>, <<k, "reverse", <<>>>>, <<k, "copy", <<>>>>, <<k, "isvalid", <<>>>>,
+        <<k, "takecopy", <<>>>>, <<k, "swap", <<>>>>}
+  \cup {<<k, "get", <<x>>>> : x \in MForms(IntIdx(-4..3) \cup SliceIdx({1}, {-1, 2}, {-1, 2})
+                                   \cup {<<"arr", <<1, 0, 1>>>>, <<"arr", <<-1>>>>, <<"mask", <<TRUE, FALSE, TRUE>>>>})}
+  \cup {<<k, "setsym", <<x[2][1], s, x[3]>>>> : x \in MForms(IntIdx({-4, -1, 0, 2, 3})), s \in SymsOf(k)}
+  \cup {<<k, "setmany", <<x, v>>>> : x \in MForms(SliceIdx({1}, {}, {-1}) \cup SliceIdx({}, {2}, {})
+                                                  \cup {<<"arr", <<1, 0>>>>, <<"mask", <<FALSE, TRUE, FALSE>>>>}),
                                      v \in {<<AlphOf(k)[1], AlphOf(k)[2]>>, <<AlphOf(k)[3]>>}}
   \cup {<<k, "add", <<AlphOf(k), v>>>> : v \in {<<>>, <<AlphOf(k)[2]>>}}
   \cup {<<k, "eq", <<v>>>> : v \in {<<>>, <<AlphOf(k)[1], AlphOf(k)[2], AlphOf(k)[3]>>}}
@@ -35,21 +52,37 @@ Enabled(S, op, a) ==
   CASE op = "setmany" -> Resolve(a[1], Len(S.codes)).ok /\ Len(Resolve(a[1], Len(S.codes)).pos) = Len(a[2])
     [] op = "add" -> Len(S.codes) + Len(a[2]) <= 4 /\ (Extends(S.alph, a[1]) \/ Extends(a[1], S.alph))
     [] op = "get" -> a[1][1] # "mask" \/ Len(a[1][2]) = Len(S.codes)
+    [] op = "swap" -> held # <<>>
     [] OTHER -> TRUE
 
+\* calls that return a new sequence, which becomes the one at hand; the old one is held
+Fresh == {"reverse", "complement", "add"}
 Do(op, a) ==
   /\ Enabled(Cur, op, a) = TRUE
-  /\ LET res == Apply(Cur, op, a) IN
-     alph' = res.alph /\ codes' = res.codes /\ oc' = res.oc /\ out' = res.out
+  /\ CASE op = "swap" ->          \* the held sequence becomes the one at hand and vice versa
+            /\ alph' = held[1].alph /\ codes' = held[1].codes /\ oc' = "ok" /\ out' = <<>>
+            /\ held' = <<[alph |-> alph, codes |-> codes]>>
+       [] op = "takecopy" ->      \* continue with copy(), hold the original
+            /\ UNCHANGED <<alph, codes>> /\ oc' = "ok" /\ out' = <<>>
+            /\ held' = <<[alph |-> alph, codes |-> codes]>>
+       [] OTHER ->
+            LET res == Apply(Cur, op, a) IN
+            /\ alph' = res.alph /\ codes' = res.codes /\ oc' = res.oc /\ out' = res.out
+            \* a sub-sequence obtained by indexing replaces the one at hand (whether it shares
+            \* memory with the dropped source is left open); the held sequence stays independent
+            /\ held' = IF op \in Fresh /\ res.oc = "ok" THEN <<[alph |-> alph, codes |-> codes]>> ELSE held
   /\ UNCHANGED kind
   /\ steps' = steps + 1
 
 Init == /\ \E o \in InitObjs : kind = o.kind /\ alph = o.alph /\ codes = o.codes
-        /\ oc = "ok" /\ out = <<>> /\ steps = 0
+        /\ oc = "ok" /\ out = <<>> /\ steps = 0 /\ held = <<>>
 Call(cl) == steps < Depth /\ cl[1] = kind /\ Do(cl[2], cl[3])
 Next == \E cl \in AllCalls : Call(cl)
 Spec == Init /\ [][Next]_vars
 
-InvValid == \A i \in DOMAIN codes : ValidCode(alph, codes[i])
+InvValid == /\ \A i \in DOMAIN codes : ValidCode(alph, codes[i])
+            /\ held # <<>> => \A i \in DOMAIN held[1].codes : ValidCode(held[1].alph, held[1].codes[i])
+\* the held sequence changes only when it is replaced (a new sequence was returned / swap)
+HeldIsIndependent == [][held' # held => \/ held = <<>> \/ held' = <<[alph |-> alph, codes |-> codes]>>]_vars
 RefusalIsNoOp == [][oc' # "ok" => (alph' = alph /\ codes' = codes)]_vars
 =============================================================================
